@@ -65,7 +65,7 @@ def unique_inits(ctx, name):
 def project_field(ctx, e, depth=0):
     base = strip(e['e'])
     c = ctx
-    for _ in range(4):
+    for _ in range(6):
         if not isinstance(base, dict):
             return None
         if base.get('k') == 'struct':
@@ -81,7 +81,7 @@ def project_field(ctx, e, depth=0):
             inits = dict(c.inits)
             for k, v in H.binding_inits({'body': base}).items():
                 inits[k] = v
-            c2.inits, c2.names, c2.env = inits, c.names, c.env
+            c2.inits, c2.names, c2.env, c2.params = inits, c.names, c.env, c.params
             c = c2
             base = strip(base['expr'])
             continue
@@ -90,6 +90,11 @@ def project_field(ctx, e, depth=0):
             if len(inits) != 1:
                 return None
             base = strip(inits[0])
+            continue
+        if base.get('k') == 'call' and base['f'].get('k') == 'path' and base['f'].get('name') in ('Ok', 'Some') \
+                and len(base['args']) == 1:
+            # the payload of a result that was unwrapped with `?` on the way here
+            base = strip(base['args'][0])
             continue
         if base.get('k') in ('call', 'mcall'):
             ih = inline_call(c, base)
@@ -129,6 +134,7 @@ def inline_call(ctx, e):
     c2.inits = inits
     c2.names = (ctx.names or set()) | all_names(h2) if ctx.names is not None else None
     c2.env = ctx.env
+    c2.params = ctx.params
     return (H.subst(tail, mapping), c2)
 
 
@@ -187,6 +193,10 @@ class Ctx:
         # was renamed) unifies with any local, consistently within one match attempt
         self.names = all_names(hfn) if hfn is not None else None
         self.env = {}
+        self.params = set()
+        if hfn is not None:
+            for p_ in hfn.get('params', []):
+                self.params.update(H.pat_bindings(p_))
 
     def const_value(self, e):
         """numeric value of a literal, a named const path, a negated literal or a simple cast of one"""
@@ -266,6 +276,25 @@ class L(Pat):
 
     def m0(self, ctx, e):
         e = strip(e)
+        if isinstance(e, dict) and e.get('k') == 'field' and ctx.names is not None and self.name not in ctx.names \
+                and _rooted_at_local(e):
+            # the variable became a field of a small value struct (`span.reversed`): unify like a renamed local
+            key = ('F', canon(e))
+            bound = ctx.env.get(self.name)
+            if bound is None:
+                ctx.env[self.name] = key
+                return True
+            return bound == key
+        if isinstance(e, dict) and e.get('k') == 'field' and getattr(ctx, 'l_depth', 0) < 3:
+            # `line.time` with `let line = Line { time, .. }`: the value is the local `time`
+            pf = project_field(ctx, e)
+            if pf is not None:
+                pf[1].l_depth = getattr(ctx, 'l_depth', 0) + 1
+                try:
+                    if self.m0(pf[1], pf[0]):
+                        return True
+                finally:
+                    pf[1].l_depth = getattr(ctx, 'l_depth', 0)
         if not (isinstance(e, dict) and e.get('k') == 'local'):
             # the `let` was inlined: the expression is the local's (single) initialiser
             inits = unique_inits(ctx, self.name)
@@ -283,6 +312,28 @@ class L(Pat):
 
     def __repr__(self):
         return 'L(%s)' % self.name
+
+
+def _rooted_at_local(e):
+    while isinstance(e, dict) and e.get('k') == 'field':
+        e = strip(e['e'])
+    return isinstance(e, dict) and e.get('k') == 'local'
+
+
+class PARAM_TY(Pat):
+    """a parameter of the analysed function with the given type (name-free), possibly carried through
+    lets / helper-struct fields"""
+    via_let = True
+
+    def __init__(self, ty):
+        self.ty = ty
+
+    def m0(self, ctx, e):
+        e = strip(e)
+        return isinstance(e, dict) and e.get('k') == 'local' and e.get('name') in ctx.params and e.get('ty') == self.ty
+
+    def __repr__(self):
+        return 'PARAM_TY(%s)' % self.ty
 
 
 class F(Pat):
@@ -602,12 +653,18 @@ def assignments(hfn, base, chain):
     return out
 
 
-def struct_field_inits(hfn, adt, field):
-    """initialisers of `field` in struct literals of type adt"""
+def struct_field_inits(hfn, adt, field, where=None):
+    """initialisers of `field` in struct literals of type adt (where=(field2, path suffix): only literals
+    whose field2 is that path)"""
     out = []
 
     def visit(n, anc):
         if n.get('k') == 'struct' and n.get('adt') == adt:
+            if where is not None:
+                sel = [f for f in n['fields'] if f['n'] == where[0]]
+                v = strip(sel[0]['e']) if sel else None
+                if not (isinstance(v, dict) and v.get('k') == 'path' and v.get('def', '').endswith(where[1])):
+                    return
             for f in n['fields']:
                 if f['n'] == field:
                     out.append((f['e'], f['ln'], anc))
@@ -618,7 +675,24 @@ def struct_field_inits(hfn, adt, field):
 def canon(e):
     """structure of an expression without line numbers/types (for sibling comparison)"""
     if isinstance(e, dict):
-        return tuple(sorted((k, canon(v)) for k, v in e.items() if k not in ('ln', 'ty', 'ty_adj', 'exp', 'full')))
+        return tuple(sorted((k, canon(v)) for k, v in e.items() if k not in ('ln', 'ty', 'ty_adj', 'exp', 'full', 'inl')))
     if isinstance(e, list):
         return tuple(canon(x) for x in e)
+    return e
+
+
+def resolve_value(ctx, e, depth=0):
+    """the expression a value ultimately comes from: single-`let` locals and fields of struct literals followed"""
+    e = strip(e)
+    if depth > 8 or not isinstance(e, dict):
+        return e
+    if e.get('k') == 'local':
+        inits = unique_inits(ctx, e['name'])
+        if len(inits) == 1 and strip(inits[0]) is not e:
+            return resolve_value(ctx, inits[0], depth + 1)
+        return e
+    if e.get('k') == 'field':
+        pf = project_field(ctx, e)
+        if pf is not None:
+            return resolve_value(pf[1], pf[0], depth + 1)
     return e
